@@ -3,6 +3,7 @@ package rules
 import (
 	"fmt"
 	"go/ast"
+	"go/constant"
 	"go/token"
 	"go/types"
 	"reflect"
@@ -77,7 +78,7 @@ func (c *Ctx) hijackWrappers() {
 			if strings.Contains(pt, "k8s.io/api/apps/v1.StatefulSet") || strings.Contains(pt, "applyconfigurations/apps/v1.StatefulSetApplyConfiguration") {
 				// the object: must be the conversion of this parameter
 				src, _ := reachingDefRHS(fi, info, a, site).(*ast.CallExpr)
-				okObj := src != nil && strings.HasPrefix(calleeShort(info, src), "FromBuiltin") && len(src.Args) == 1 && fn.Term(src.Args[0]).Key() == fn.Term(params[i]).Key()
+				okObj := src != nil && c.convertsFromBuiltin(info, src, 0) && len(src.Args) == 1 && fn.Term(src.Args[0]).Key() == fn.Term(params[i]).Key()
 				if !okObj {
 					pass = false
 				}
@@ -113,17 +114,11 @@ func (c *Ctx) hijackWrappers() {
 				conv, _ = ret.Results[0].(*ast.CallExpr)
 			}
 			direct := conv != nil && len(conv.Args) == 1 && ast.Unparen(conv.Args[0]) == ast.Expr(site) // conv(underlying(...)): both results handed on
-			if len(ret.Results) == 1 && conv != nil && direct {
-				switch calleeShort(info, conv) {
-				case "ToBuiltinStatefulSet", "ToBuiltinStetefulsetList", "newHijackWatch":
-					okRet = true
-				}
+			if len(ret.Results) == 1 && conv != nil && direct && c.convertsToBuiltin(info, conv, 0) {
+				okRet = true
 			}
-			if conv != nil && resID != nil && len(conv.Args) == 1 && fn.Term(conv.Args[0]).Key() == fn.Term(resID).Key() {
-				switch calleeShort(info, conv) {
-				case "ToBuiltinStatefulSet", "ToBuiltinStetefulsetList", "newHijackWatch":
-					okRet = true
-				}
+			if conv != nil && resID != nil && len(conv.Args) == 1 && fn.Term(conv.Args[0]).Key() == fn.Term(resID).Key() && c.convertsToBuiltin(info, conv, 0) {
+				okRet = true
 			}
 			return true
 		})
@@ -449,32 +444,36 @@ func (c *Ctx) annotationKeys() {
 		}
 		fn, an := c.Analysis(fi)
 		info := fi.Pkg.TypesInfo
-		// the annotations variable: assigned from X.GetAnnotations()
-		var ann types.Object
-		ast.Inspect(fi.Decl.Body, func(x ast.Node) bool {
-			if as, ok := x.(*ast.AssignStmt); ok && len(as.Lhs) == 1 && len(as.Rhs) == 1 {
-				if call, ok := as.Rhs[0].(*ast.CallExpr); ok {
-					if sel, ok := call.Fun.(*ast.SelectorExpr); ok && sel.Sel.Name == "GetAnnotations" {
-						if id, ok := as.Lhs[0].(*ast.Ident); ok {
-							ann = info.ObjectOf(id)
+		// the key: the constant itself, or (in a lookup helper expanded into the function) a parameter bound to it
+		isKey := func(e ast.Expr) bool {
+			if tv, ok := info.Types[e]; ok && tv.Value != nil {
+				return tv.Value.ExactString() == kc.Val().ExactString()
+			}
+			g, _ := an.StateAtExpr(e).Implies(gf.FEq(fn.Term(e), gf.ConstStr(constant.StringVal(kc.Val()))))
+			return g
+		}
+		nHere := 0
+		for _, bd := range fn.Bodies() {
+			// the annotations variable of this body: assigned from X.GetAnnotations()
+			var ann types.Object
+			ast.Inspect(bd, func(x ast.Node) bool {
+				if as, ok := x.(*ast.AssignStmt); ok && len(as.Lhs) == 1 && len(as.Rhs) == 1 {
+					if call, ok := as.Rhs[0].(*ast.CallExpr); ok {
+						if sel, ok := call.Fun.(*ast.SelectorExpr); ok && sel.Sel.Name == "GetAnnotations" {
+							if id, ok := as.Lhs[0].(*ast.Ident); ok {
+								ann = info.ObjectOf(id)
+							}
 						}
 					}
 				}
-			}
-			return true
-		})
-		isKey := func(e ast.Expr) bool {
-			tv, ok := info.Types[e]
-			return ok && tv.Value != nil && tv.Value.ExactString() == kc.Val().ExactString()
-		}
-		if ann == nil {
+				return true
+			})
 			// the getters may index the map where they obtain it: X.GetAnnotations()[key]
-			direct := 0
-			ast.Inspect(fi.Decl.Body, func(x ast.Node) bool {
+			ast.Inspect(bd, func(x ast.Node) bool {
 				if ix, ok := x.(*ast.IndexExpr); ok {
 					if call, ok := ast.Unparen(ix.X).(*ast.CallExpr); ok {
 						if sel, ok := call.Fun.(*ast.SelectorExpr); ok && sel.Sel.Name == "GetAnnotations" {
-							direct++
+							nHere++
 							n++
 							c.Check(isKey(ix.Index), "C19.3-annotation-keys", fmt.Sprintf("%s: GetAnnotations()[%s]", fname, types.ExprString(ix.Index)), ix.Pos(), "uses the helper's own key constant "+kname, "the helper touches an annotation other than its own key")
 						}
@@ -482,42 +481,46 @@ func (c *Ctx) annotationKeys() {
 				}
 				return true
 			})
-			if direct == 0 || strings.HasPrefix(fname, "Set") {
-				c.Bad("C19.3-annotation-keys", fname, fi.Decl.Pos(), "annotations are not obtained through GetAnnotations()")
+			if ann == nil {
+				continue
 			}
-			continue
+			ast.Inspect(bd, func(x ast.Node) bool {
+				switch y := x.(type) {
+				case *ast.IndexExpr:
+					if r := rootIdent(y.X); r != nil && info.ObjectOf(r) == ann {
+						n++
+						nHere++
+						c.Check(isKey(y.Index), "C19.3-annotation-keys", fmt.Sprintf("%s: annotations[%s]", fname, types.ExprString(y.Index)), y.Pos(), "uses the helper's own key constant "+kname, "the helper touches an annotation other than its own key")
+					}
+				case *ast.CallExpr:
+					if id, ok := y.Fun.(*ast.Ident); ok && id.Name == "delete" && len(y.Args) == 2 {
+						if r := rootIdent(y.Args[0]); r != nil && info.ObjectOf(r) == ann {
+							n++
+							nHere++
+							c.Check(isKey(y.Args[1]), "C19.3-annotation-keys", fmt.Sprintf("%s: delete(annotations, %s)", fname, types.ExprString(y.Args[1])), y.Pos(), "deletes only its own key", "the helper deletes an annotation other than its own key")
+						}
+					}
+					if sel, ok := y.Fun.(*ast.SelectorExpr); ok && sel.Sel.Name == "SetAnnotations" && len(y.Args) == 1 {
+						n++
+						id, ok := y.Args[0].(*ast.Ident)
+						c.Check(ok && info.ObjectOf(id) == ann, "C19.3-annotation-map-preserved", fname+": SetAnnotations(...)", y.Pos(), "the map obtained from GetAnnotations is what is written back", "SetAnnotations is given a different map: other annotations are lost")
+					}
+				case *ast.AssignStmt:
+					// annotations = <fresh map> only when annotations == nil
+					for i, l := range y.Lhs {
+						if id, ok := l.(*ast.Ident); ok && info.ObjectOf(id) == ann && y.Tok == token.ASSIGN && len(y.Rhs) == len(y.Lhs) {
+							n++
+							_ = i
+							c.Implies(an.StateBefore(y), gf.FNil(fn.Term(id)), "C19.3-annotation-map-preserved", fname+": annotations = "+types.ExprString(y.Rhs[i]), y.Pos())
+						}
+					}
+				}
+				return true
+			})
 		}
-		ast.Inspect(fi.Decl.Body, func(x ast.Node) bool {
-			switch y := x.(type) {
-			case *ast.IndexExpr:
-				if r := rootIdent(y.X); r != nil && info.ObjectOf(r) == ann {
-					n++
-					c.Check(isKey(y.Index), "C19.3-annotation-keys", fmt.Sprintf("%s: annotations[%s]", fname, types.ExprString(y.Index)), y.Pos(), "uses the helper's own key constant "+kname, "the helper touches an annotation other than its own key")
-				}
-			case *ast.CallExpr:
-				if id, ok := y.Fun.(*ast.Ident); ok && id.Name == "delete" && len(y.Args) == 2 {
-					if r := rootIdent(y.Args[0]); r != nil && info.ObjectOf(r) == ann {
-						n++
-						c.Check(isKey(y.Args[1]), "C19.3-annotation-keys", fmt.Sprintf("%s: delete(annotations, %s)", fname, types.ExprString(y.Args[1])), y.Pos(), "deletes only its own key", "the helper deletes an annotation other than its own key")
-					}
-				}
-				if sel, ok := y.Fun.(*ast.SelectorExpr); ok && sel.Sel.Name == "SetAnnotations" && len(y.Args) == 1 {
-					n++
-					id, ok := y.Args[0].(*ast.Ident)
-					c.Check(ok && info.ObjectOf(id) == ann, "C19.3-annotation-map-preserved", fname+": SetAnnotations(...)", y.Pos(), "the map obtained from GetAnnotations is what is written back", "SetAnnotations is given a different map: other annotations are lost")
-				}
-			case *ast.AssignStmt:
-				// annotations = <fresh map> only when annotations == nil
-				for i, l := range y.Lhs {
-					if id, ok := l.(*ast.Ident); ok && info.ObjectOf(id) == ann && y.Tok == token.ASSIGN && len(y.Rhs) == len(y.Lhs) {
-						n++
-						_ = i
-						c.Implies(an.StateBefore(y), gf.FNil(fn.Term(id)), "C19.3-annotation-map-preserved", fname+": annotations = "+types.ExprString(y.Rhs[i]), y.Pos())
-					}
-				}
-			}
-			return true
-		})
+		if nHere == 0 {
+			c.Bad("C19.3-annotation-keys", fname, fi.Decl.Pos(), "annotations are not obtained through GetAnnotations()")
+		}
 	}
 	c.Floor("C19.3-annotation-accesses", n, 6)
 	// the setters always write: every successful exit has passed the key's delete or store and SetAnnotations
@@ -623,6 +626,29 @@ func (c *Ctx) defaultBeforeSend() {
 			}
 		}
 		ok := false
+		if dcall == nil {
+			// the conversion and the defaulting may sit in a helper the engine expands into the method: the defaulting
+			// call is passed on every path to the send, and what it defaulted is what is sent (by the facts at the send)
+			fn.KeepDead = true
+			anK := fn.Analyze(nil)
+			fn.KeepDead = false
+			var stops []ast.Node
+			same := false
+			for _, h := range fn.Expanded() {
+				for _, call := range callsIn(h.Decl.Body, false) {
+					if gf.StaticCallee(h.Pkg.TypesInfo, call) == def && len(call.Args) == 1 {
+						stops = append(stops, stmtOf(h.Decl.Body, call))
+						if g, _ := anK.StateAtExpr(send).Implies(gf.FEq(fn.Term(call.Args[0]), fn.Term(send.Args[1]))); g {
+							same = true
+						}
+					}
+				}
+			}
+			if len(stops) > 0 && same {
+				aU := fn.FromUntil(fi.Decl.Body.List[0], gf.TrueState(), stops...)
+				ok = !aU.StateAtExpr(send).Reachable()
+			}
+		}
 		if dcall != nil {
 			aU := fn.FromUntil(fi.Decl.Body.List[0], gf.TrueState(), dcall)
 			ok = !aU.StateAtExpr(send).Reachable()
@@ -962,4 +988,81 @@ func (c *Ctx) noLateDependency(fi *load.FuncInfo, fn *gf.Fn) {
 				"the field is written at "+c.P.Pos(w.stmt.Pos())+" in a branch that does not lead to this guard: a second defaulting pass can take a different branch (defaulting twice != once)")
 		}
 	}
+}
+
+// convertsToBuiltin: the callee is one of the Advanced-to-built-in conversions, or a wrapper every non-error return
+// of which is such a conversion of its first parameter (error returns hand the error on).
+func (c *Ctx) convertsToBuiltin(info *types.Info, call *ast.CallExpr, depth int) bool {
+	switch calleeShort(info, call) {
+	case "ToBuiltinStatefulSet", "ToBuiltinStetefulsetList", "newHijackWatch":
+		return true
+	}
+	f := gf.StaticCallee(info, call)
+	if f == nil || depth > 2 {
+		return false
+	}
+	hfi := c.P.FuncInfoOf(f)
+	if hfi == nil || hfi.Pkg.PkgPath != load.HelperPkg || len(hfi.Decl.Type.Params.List) == 0 || len(hfi.Decl.Type.Params.List[0].Names) == 0 {
+		return false
+	}
+	hinfo := hfi.Pkg.TypesInfo
+	p0 := hinfo.ObjectOf(hfi.Decl.Type.Params.List[0].Names[0])
+	n, good := 0, true
+	ownNodes(hfi.Decl.Body, func(x ast.Node) {
+		ret, ok := x.(*ast.ReturnStmt)
+		if !ok {
+			return
+		}
+		if len(ret.Results) == 2 && isNilExpr(hinfo, ret.Results[0]) {
+			return // error return
+		}
+		n++
+		var inner *ast.CallExpr
+		if len(ret.Results) >= 1 {
+			inner, _ = ast.Unparen(ret.Results[0]).(*ast.CallExpr)
+		}
+		if inner == nil || len(inner.Args) != 1 || !c.convertsToBuiltin(hinfo, inner, depth+1) {
+			good = false
+			return
+		}
+		if id, ok := ast.Unparen(inner.Args[0]).(*ast.Ident); !ok || hinfo.ObjectOf(id) != p0 {
+			good = false
+		}
+	})
+	return good && n > 0
+}
+
+// convertsFromBuiltin: the callee is one of the built-in-to-Advanced conversions, or a wrapper whose returned object
+// comes from such a conversion of its first parameter.
+func (c *Ctx) convertsFromBuiltin(info *types.Info, call *ast.CallExpr, depth int) bool {
+	if strings.HasPrefix(calleeShort(info, call), "FromBuiltin") {
+		return true
+	}
+	f := gf.StaticCallee(info, call)
+	if f == nil || depth > 2 {
+		return false
+	}
+	hfi := c.P.FuncInfoOf(f)
+	if hfi == nil || hfi.Pkg.PkgPath != load.HelperPkg || len(hfi.Decl.Type.Params.List) == 0 || len(hfi.Decl.Type.Params.List[0].Names) == 0 {
+		return false
+	}
+	hinfo := hfi.Pkg.TypesInfo
+	p0 := hinfo.ObjectOf(hfi.Decl.Type.Params.List[0].Names[0])
+	n, good := 0, true
+	ownNodes(hfi.Decl.Body, func(x ast.Node) {
+		ret, ok := x.(*ast.ReturnStmt)
+		if !ok || len(ret.Results) == 0 || isNilExpr(hinfo, ret.Results[0]) {
+			return
+		}
+		n++
+		src, _ := c.originCall(hfi, ret.Results[0], 0)
+		if src == nil || !strings.HasPrefix(calleeShort(hinfo, src), "FromBuiltin") || len(src.Args) != 1 {
+			good = false
+			return
+		}
+		if id, ok := ast.Unparen(src.Args[0]).(*ast.Ident); !ok || hinfo.ObjectOf(id) != p0 {
+			good = false
+		}
+	})
+	return good && n > 0
 }
